@@ -121,7 +121,47 @@ def run(tier="quick", seed=0, repo="/repo"):
             except Exception as e:  # noqa: BLE001
                 ok, detail = False, f"{type(e).__name__}: {str(e)[:160]}"
             t.case(f"desc:{point}:{q[:60]}", (point, q), ok, function="fakesnow.cursor.FakeSnowflakeCursor._describe_last_sql", case={"sql": q, "read": point}, expected="description consistent", actual=detail, sample_every=13)
-    return t.result(bound=f"{len(QUERIES)} statements x 3 read points")
+    # the same statement text executed again after the schema changed: description follows the new result, on the same cursor
+    fs = new_instance(repo)
+    conn = fs.connect("db1", "s1")
+    cur = conn.cursor()
+    steps = [
+        ("create or replace table evolve (a int)", None),
+        ("select * from evolve", [("A", 0)]),
+        ("alter table evolve add column b varchar", None),
+        ("select * from evolve", [("A", 0), ("B", 2)]),
+        ("create or replace table evolve (a varchar, c date, d number(20,12))", None),
+        ("select * from evolve", [("A", 2), ("C", 3), ("D", 0)]),
+        ("drop table evolve", None),
+        ("create table evolve (z boolean)", None),
+        ("select * from evolve", [("Z", 13)]),
+    ]
+    ddl_cur = conn.cursor()  # the schema is changed through another cursor: `cur` sees the very same text again and again
+    for i, (sql, want) in enumerate(steps):
+        try:
+            if want is None:
+                ddl_cur.execute(sql)
+                t.case(f"desc-reexec:{i}:{sql[:50]}", ("reexec", i), True, function="fakesnow.cursor.FakeSnowflakeCursor.description", case={"step": i, "sql": sql}, expected="ddl", actual="ok")
+                continue
+            cur.execute(sql)
+            d1 = [(d.name, d.type_code) for d in cur.description]
+            d2 = [(d.name, d.type_code) for d in cur.description]  # reading twice gives the same
+            ok = (want is None or d1 == want) and d1 == d2
+            detail = repr(d1)
+        except Exception as e:  # noqa: BLE001
+            ok, detail = False, f"{type(e).__name__}: {str(e)[:160]}"
+        t.case(f"desc-reexec:{i}:{sql[:50]}", ("reexec", i), ok, function="fakesnow.cursor.FakeSnowflakeCursor.description", case={"step": i, "sql": sql}, expected=repr(want), actual=detail)
+    # NUMBER(p,s) over the whole range of scales (one and two digits): precision and scale reported as declared, values are Decimals
+    for p_, s_ in [(38, 0), (10, 2), (18, 9), (20, 10), (30, 12), (38, 37), (11, 11)]:
+        q = f"select 0::number({p_},{s_}) as v"
+        try:
+            cur.execute(q)
+            d = cur.description[0]
+            ok, detail = (d.type_code, d.precision, d.scale) == (0, p_, s_), f"type_code {d.type_code} precision {d.precision} scale {d.scale}"
+        except Exception as e:  # noqa: BLE001
+            ok, detail = False, f"{type(e).__name__}: {str(e)[:160]}"
+        t.case(f"desc-number:{p_},{s_}", ("number", p_, s_), ok, function="fakesnow.types.describe_as_rowtype", case={"sql": q}, expected=f"FIXED precision {p_} scale {s_}", actual=detail)
+    return t.result(bound=f"{len(QUERIES)} statements x 3 read points; 9-step schema evolution re-executing the same text; 7 NUMBER(p,s) shapes")
 
 
 def replay(case, repo):
